@@ -22,7 +22,7 @@ from elementpath.exceptions import xpath_error, ElementPathError, ElementPathVal
     ElementPathTypeError, MissingContextError
 from elementpath.namespaces import XSD_ANY_TYPE, XSD_ANY_SIMPLE_TYPE, XSD_ANY_ATOMIC_TYPE
 from elementpath.namespaces import XSD_NAMESPACE, XPATH_MATH_FUNCTIONS_NAMESPACE
-from elementpath.datatypes import AnyAtomicType, AbstractDateTime, AnyURI, \
+from elementpath.datatypes import AnyAtomicType, AbstractBinary, AbstractDateTime, AnyURI, \
     DayTimeDuration, Date, DateTime, DecimalProxy, Duration, Integer, QName, \
     Timezone, UntypedAtomic, AbstractQName
 from elementpath.tdop import Token, MultiLabel
@@ -581,13 +581,16 @@ class XPathToken(Token[ta.XPathTokenType]):
                     if not isinstance(op2, (str, UntypedAtomic, AnyURI)):
                         raise TypeError(msg.format(type(op1), type(op2)))
                 case bool():
-                    if isinstance(op2, (str, Integer, AbstractQName, AnyURI)):
+                    if isinstance(op2, (str, Integer, float, decimal.Decimal, AbstractQName, AnyURI)):
                         raise TypeError(msg.format(type(op1), type(op2)))
                 case Integer():
-                    if isinstance(op2, (str, AbstractQName, AnyURI, bool)):
+                    if isinstance(op2, float):
+                        yield float(op1), op2
+                        continue
+                    elif isinstance(op2, (str, AbstractQName, AnyURI, bool)):
                         raise TypeError(msg.format(type(op1), type(op2)))
                 case float():
-                    if isinstance(op2, decimal.Decimal):
+                    if isinstance(op2, (decimal.Decimal, Integer)):
                         yield op1, float(op2)
                         continue
                     elif isinstance(op2, (str, AbstractQName, AnyURI, bool)):
@@ -601,7 +604,19 @@ class XPathToken(Token[ta.XPathTokenType]):
                 case AbstractQName():
                     if not isinstance(op2, (AbstractQName, UntypedAtomic)):
                         raise TypeError(msg.format(type(op1), type(op2)))
+                case AbstractDateTime() | AbstractBinary():
+                    if not isinstance(op2, UntypedAtomic) and getattr(op2, 'name', '') != op1.name:
+                        raise TypeError(msg.format(type(op1), type(op2)))
+                case Duration():
+                    if not isinstance(op2, (Duration, UntypedAtomic)):
+                        raise TypeError(msg.format(type(op1), type(op2)))
+                    elif self.symbol not in ('=', '!=') and isinstance(op2, Duration) and \
+                            (type(op1) is Duration or type(op1) is not type(op2)):
+                        raise TypeError(msg.format(type(op1), type(op2)))  # no order relation
 
+            if isinstance(op1, (int, float, decimal.Decimal)) and \
+                    isinstance(op2, (AbstractDateTime, AbstractBinary, Duration)):
+                raise TypeError(msg.format(type(op1), type(op2)))
             yield op1, op2
 
     def get_operands(self, context: ta.ContextType, cls: type[Any] | None = None) -> Any:
